@@ -31,6 +31,12 @@ input (`Next`'s coalescing loop, when `coalesce` reports "not done") is shown to
 case (`next_never_spins`), and every `Next` that yields a result consumes a fetched result
 (`next_consumes_input`).
 
+A multi response may itself say that the regionserver is not in service (an exception of the classes
+of `javaServerExceptions`, for a region or for one action): `receive` then fails the connection
+after having answered every call (`server_exception_in_multi_ends_connection`,
+`multi_connection_failure_only_for_server_exception`); the no-panic / no-block / exactly-once
+theorems hold for these responses like for every other.
+
 Outside the model (DESIGN §6 C11 **R**): the *size* of allocations made from wire-declared counts
 (`make([]*pb.Cell, count)`), see KNOWN_FINDINGS `alloc-*`.
 -/
@@ -96,6 +102,71 @@ theorem receive_multi_each_live_call_once (lookup : Nat → Option Rpc)
     (h : receiveDecide lookup false decompress f = .ok v) :
     ∀ j, (v.deliveries.map (·.1)).count j = if liveAt m.calls j = true then 1 else 0 :=
   receiveDecide_multi_counts lookup decompress f id m v hid hl h
+
+/-! ## a multi response that says the regionserver is going down
+
+`region/client.go` `serverErrorIn`: an exception of the classes of `javaServerExceptions`
+(`exceptionToError` makes a `ServerError` of it) inside a multi response — for a whole region or for
+one action — fails the connection like the same exception in a response header does, *after* every
+call of the multi has been given its own result. -/
+
+/-- The accepted path of `receive` for a multi — no header exception, a response that decodes (`mr`),
+a `cell_block_meta` length that fits into the frame, a cellblock that `DeserializeCellBlocks`
+accepts (giving `mr'`) and reads to its end: every call gets exactly what
+`returnResults(response, nil)` gives it (the per-call results do not depend on whether the connection
+fails afterwards; `multi_return_no_fault_after_validation` and `multi_each_live_call_answered_once`
+speak about them), and `receive` returns a `ServerError` — the connection fails — exactly if the
+response carries a server-class exception. -/
+theorem accepted_multi_connection_state (lookup : Nat → Option Rpc) (f : Frame) (id rl : Nat)
+    (m : Multi) (mr mr' : MultiResp) (n : Nat) (hwf : f.WF)
+    (hid : f.header.callId = some id) (hl : lookup id = some (.multi m))
+    (hexc : f.header.exception = none) (hrl : f.respLen = some rl)
+    (hdec : f.decoded.multi = some mr)
+    (hcl : cellsLenOf f.header ≤ f.body.length - f.headerLen - rl)
+    (hdes : multiDeserialize m mr (f.body.drop (f.body.length - cellsLenOf f.header)) = .ok (mr', n))
+    (hn : cellsLenOf f.header ≤ n) :
+    receiveDecide lookup false none f
+      = (multiReturn m (some mr') none).map (fun ds => ⟨ds, serverErrorIn mr⟩) :=
+  receiveDecide_multi_accepted lookup f id rl m mr mr' n hwf hid hl hexc hrl hdec hcl hdes hn
+
+/-- NEW BEHAVIOUR. A well-formed multi response that contains a server-class exception — region-level
+or per-action, in any `RegionActionResult` — ends the connection: the calls get their results as
+before (`returnResults(response, nil)`), then `receive` returns the `ServerError` (`connFail`), so
+`receiveRPCs` calls `c.fail` and exits (C03). -/
+theorem server_exception_in_multi_ends_connection (lookup : Nat → Option Rpc) (f : Frame) (id rl : Nat)
+    (m : Multi) (mr mr' : MultiResp) (n : Nat) (hwf : f.WF)
+    (hid : f.header.callId = some id) (hl : lookup id = some (.multi m))
+    (hexc : f.header.exception = none) (hrl : f.respLen = some rl)
+    (hdec : f.decoded.multi = some mr)
+    (hcl : cellsLenOf f.header ≤ f.body.length - f.headerLen - rl)
+    (hdes : multiDeserialize m mr (f.body.drop (f.body.length - cellsLenOf f.header)) = .ok (mr', n))
+    (hn : cellsLenOf f.header ≤ n) (hsrv : serverErrorIn mr = true) :
+    receiveDecide lookup false none f
+      = (multiReturn m (some mr') none).map (fun ds => ⟨ds, true⟩) := by
+  rw [accepted_multi_connection_state lookup f id rl m mr mr' n hwf hid hl hexc hrl hdec hcl hdes hn,
+    hsrv]
+
+/-- Conversely, the response to a multi fails the connection only for a server-class exception: in
+the header (every call gets that `ServerError`) or inside the accepted response (every call has got
+what `returnResults(response, nil)` gives it). A response that is rejected — undecodable, bad
+`cell_block_meta`, bad cellblock, indices `DeserializeCellBlocks` refuses, short read — never does,
+whatever exceptions it mentions. -/
+theorem multi_connection_failure_only_for_server_exception (lookup : Nat → Option Rpc)
+    (decompress : Option (Bytes → Outcome Bytes)) (f : Frame) (id : Nat) (m : Multi) (v : Verdict)
+    (hid : f.header.callId = some id) (hl : lookup id = some (.multi m))
+    (h : receiveDecide lookup false decompress f = .ok v) (hcf : v.connFail = true) :
+    (∃ e, f.header.exception = some e ∧
+        exceptionToError (e.className.getD []) (e.stackTrace.getD []) = .connErr ∧
+        multiReturn m none (some .connErr) = .ok v.deliveries) ∨
+    (f.header.exception = none ∧
+      ∃ mr, serverErrorIn mr = true ∧ multiReturn m (some mr) none = .ok v.deliveries) :=
+  receiveDecide_multi_connFail_cause lookup decompress f id m v hid hl h hcf
+
+/-- `DeserializeCellBlocks` does not touch exceptions: what `serverErrorIn` finds in the response
+handed to the callers is what the wire message held. -/
+theorem multiDeserialize_keeps_server_exceptions (m : Multi) (mr mr' : MultiResp) (b : Bytes) (n : Nat)
+    (h : multiDeserialize m mr b = .ok (mr', n)) : serverErrorIn mr' = serverErrorIn mr :=
+  multiDeserialize_serverErrorIn h
 
 /-! ## multi responses -/
 
@@ -230,6 +301,55 @@ example : receiveDecide (fun _ => some .get) false none (fr 1)
     = .ok ⟨[(0, ⟨.get ⟨some { cells := [] }⟩, some .retryable⟩)], false⟩ := by decide
 /-- no call id / unknown call id: the connection fails (C03) and nothing is delivered by `receive` -/
 example : receiveDecide (fun _ => none) false none (fr 0) = .ok ⟨[], true⟩ := by decide
+
+/-! ### a server-class exception inside a multi response (`decide +kernel`: the class names are
+string literals of the regenerated tables, whose UTF-8 bytes only the kernel evaluates) -/
+
+def stoppedNBP : NameBytesPair :=
+  ⟨some (strBytes "org.apache.hadoop.hbase.regionserver.RegionServerStoppedException"), some [115]⟩
+def ioNBP (v : String) : NameBytesPair := ⟨some (strBytes "java.io.IOException"), some (strBytes v)⟩
+def excRoeOf (i : Nat) (e : NameBytesPair) : ResultOrException := ⟨some i, none, some e⟩
+/-- a frame for the multi `m2` (calls 0 and 2 live, regions 0 and 1) without cellblock -/
+def frM (mr : MultiResp) : Frame := ⟨[0, 0], 1, ⟨some 1, none, none⟩, some 1, { multi := some mr }⟩
+def mrAction : MultiResp := ⟨[⟨[excRoeOf 1 stoppedNBP], none⟩, ⟨[okRoe 3], none⟩]⟩
+def mrRegion : MultiResp := ⟨[⟨[], some stoppedNBP⟩, ⟨[okRoe 3], none⟩]⟩
+
+/-- the hypotheses of `server_exception_in_multi_ends_connection` are satisfiable … -/
+example : (frM mrAction).WF ∧ (frM mrAction).header.exception = none ∧
+    cellsLenOf (frM mrAction).header ≤ (frM mrAction).body.length - (frM mrAction).headerLen - 1 ∧
+    multiDeserialize m2 mrAction ((frM mrAction).body.drop
+      ((frM mrAction).body.length - cellsLenOf (frM mrAction).header)) = .ok (mrAction, 0) ∧
+    serverErrorIn mrAction = true := by
+  unfold Frame.WF; decide +kernel
+/-- … per action: the failed call gets its `ServerError`, the other call keeps its success, then the
+connection fails -/
+example : receiveDecide (fun _ => some (.multi m2)) false none (frM mrAction)
+    = .ok ⟨[(0, errD .connErr), (2, ⟨.get ⟨some { cells := [] }⟩, none⟩)], true⟩ := by decide +kernel
+/-- … for a whole region -/
+example : receiveDecide (fun _ => some (.multi m2)) false none (frM mrRegion)
+    = .ok ⟨[(0, errD .connErr), (2, ⟨.get ⟨some { cells := [] }⟩, none⟩)], true⟩ := by decide +kernel
+/-- … in a region result beyond the regions of the request: nobody is told, the connection still fails -/
+example : receiveDecide (fun _ => some (.multi m2)) false none
+      (frM ⟨[⟨[okRoe 1], none⟩, ⟨[okRoe 3], none⟩, ⟨[], some stoppedNBP⟩]⟩)
+    = .ok ⟨[(0, ⟨.get ⟨some { cells := [] }⟩, none⟩), (2, ⟨.get ⟨some { cells := [] }⟩, none⟩)], true⟩ := by
+  decide +kernel
+/-- `java.io.IOException` is not server-class, with ("log is closed": the region is not served) and
+without the text: the connection stays in service -/
+example : receiveDecide (fun _ => some (.multi m2)) false none
+      (frM ⟨[⟨[excRoeOf 1 (ioNBP "Cannot append; log is closed")], none⟩, ⟨[okRoe 3], none⟩]⟩)
+    = .ok ⟨[(0, errD .nsre), (2, ⟨.get ⟨some { cells := [] }⟩, none⟩)], false⟩ := by decide +kernel
+example : receiveDecide (fun _ => some (.multi m2)) false none
+      (frM ⟨[⟨[excRoeOf 1 (ioNBP "other")], none⟩, ⟨[okRoe 3], none⟩]⟩)
+    = .ok ⟨[(0, errD .fatal), (2, ⟨.get ⟨some { cells := [] }⟩, none⟩)], false⟩ := by decide +kernel
+/-- a rejected response (a short read: one cellblock byte nobody reads) mentions the exception in
+vain: every call is told to retry, the connection stays in service -/
+example : receiveDecide (fun _ => some (.multi m2)) false none
+      ⟨[0, 0, 0], 1, ⟨some 1, none, some (some 1)⟩, some 1, { multi := some mrAction }⟩
+    = .ok ⟨[(0, errD .retryable), (2, errD .retryable)], false⟩ := by decide +kernel
+/-- without the exception nothing changes: no connection failure -/
+example : receiveDecide (fun _ => some (.multi m2)) false none (frM ⟨[⟨[okRoe 1], none⟩, ⟨[okRoe 3], none⟩]⟩)
+    = .ok ⟨[(0, ⟨.get ⟨some { cells := [] }⟩, none⟩), (2, ⟨.get ⟨some { cells := [] }⟩, none⟩)], false⟩ := by
+  decide
 
 /-! ## Meta row keys (fix 7f9c1ed) — proofs in `Props/C11Names.lean` -/
 
